@@ -126,6 +126,17 @@ REG = {
         'after that call. The files left behind must equal the content before or after the interrupted operation (taken from an uncrashed reference run), and a process '
         'restarted on them must have exactly the resources and observers of one of those two states and must send Observe values greater than any sent before the kill.',
    note='Kill = process death (kernel buffers survive); power loss / fsync ordering is not modelled. Quick tier samples up to 45 kill indices per history, thorough takes all.'),
+ 'C12': dict(module='sessions', engine='sessions', category='model_checking', design_ref='4/C12',
+   technique='TLA+ spec Sessions (TLC closed model of lookup / holders / reclamation / eviction) + TLC judging session events, allocator events and wire events of a real server with fabricated peers',
+   text='Sessions.tla keeps the peer -> session map, the holders of each session (application reference, observer, async entry, queued Confirmable message) and decides for every '
+        'deletion whether it had a permitted cause (teardown, idle past the session timeout, oldest idle one at the idle limit); MC_Sessions explores all interleavings of '
+        'datagrams from three peers, holders, time and reclamation. The real server runs on the simulator with 1-50 fabricated peers, timeouts 1 s / 5 s / default, idle limits 0-5, '
+        'references taken in handlers, observers, async entries, silent peers, RSTs, time jumps just before / at / after each timeout and coap_free_context at every prefix of a '
+        'history using every holder. The allocator is interposed at link time: session objects are numbered by it, NEW / DEL events, handler invocations and datagrams must refer to '
+        'allocated objects, a peer is always handled by its own session, one NEW and one DEL per session, no deletion while held or before the timeout, nothing idle overdue after an '
+        'I/O step, and after teardown the allocator balance is zero with no unknown free.',
+   note='Use-after-release inside libcoap itself is observed by ASan (a report fails the check); the spec sees it only when an event names a released object. Client sessions are '
+        'covered only through the ledger. The application is assumed to release its own references before freeing the context.'),
  'C13': dict(module='lock', engine='lock', category='model_checking', design_ref='4/C13',
    technique='TLA+ spec Lock (TLC: mutual exclusion, no leak, no deadlock over all interleavings) + trace validation of real multi-threaded runs with link-time mutex taps',
    text='Lock.tla models the global lock protocol (API entry, kept and released callbacks with re-entry, the I/O wait) and TLC checks mutual exclusion, that nothing stays '
